@@ -6,11 +6,11 @@ PROPS["C12"] = dict(
                "After every step the set of live PDU objects reported by the lifetime hook must equal the set reachable from the roots, each layer exactly once, parent links must name the owner; "
                "copies must equal their source in every getter and in serialization at copy time and must not change when the other side is edited.",
     level_note="Trusted: the registry (60 lines) and the typed operation table generated from the class list of the current headers. Self-move is excluded; a PtrPacket is converted to an owning Packet at most once.",
-    phases=[dict(name="programs", harness="c12.cpp", flavor="asan", mode="programs", cases=dict(quick=40000, thorough=400000)),
+    phases=[dict(name="programs", harness="c12.cpp", flavor="asan", mode="programs", cases=dict(quick=20000, thorough=400000)),
             dict(name="options", harness="c12.cpp", flavor="asan", mode="options", cases=dict(quick=20000, thorough=500000))],
     rule="case = random ownership program; distinct = distinct program text; every program is checked after each step",
-    floors=dict(any={"distinct": 20000, "forest_checks": 500000, "deep_equality_checks": 100000, "op:copy-assign-shorter-over-longer": 2000, "op:copy-assign-longer-over-shorter": 2000,
-                     "op:self-assign": 5000, "op:move-assign": 5000, "op:move-construct": 5000, "op:release": 5000, "op:inner_pdu-ptr": 5000, "op:packet-wrap": 5000,
+    floors=dict(any={"distinct": 15000, "forest_checks": 250000, "deep_equality_checks": 50000, "op:copy-assign-shorter-over-longer": 1000, "op:copy-assign-longer-over-shorter": 1000,
+                     "op:self-assign": 2500, "op:move-assign": 2500, "op:move-construct": 2500, "op:release": 2500, "op:inner_pdu-ptr": 2500, "op:packet-wrap": 2500,
                      "option:self-assign": 1000, "typed_classes": 45}),
     assumptions=["x86-64", "programs never self-move and never hand one heap PDU to two owners (that would be a user error, not a libtins defect)"],
 )
